@@ -291,7 +291,7 @@ def main():
                       serves_properties=sorted(CLAIMED),
                       kind_free_text="Coq 8.16.1 development (Spec/, Model/, Proofs/, Props/), regenerated tables in coq/gen, extracted OCaml evaluator, Python correspondence harness (check, tools/)")],
         checks=checks,
-        notes="fix: commits in /repo: bceba77 (F1), 91c3651 (F2), 6fc128e (F5), c92b60c (F6), 58c8956 (F7a), bfe93b1 (F12), 37639a2 (F7b), 5d7142b (F9), 444ddb1 (F13), ecba00f (F14), 636f555 (F15); known findings kept: F3, F4, F8, F8b, F10, F11, F16; see known_findings.json and DESIGN.md section 8.",
+        notes="fix: commits in /repo: bceba77 (F1), 91c3651 (F2), 6fc128e (F5), c92b60c (F6), 58c8956 (F7a), bfe93b1 (F12), 37639a2 (F7b), 5d7142b (F9), 444ddb1 (F13), ecba00f (F14), 636f555 (F15), 44372fd (F17); known findings kept: F3, F4, F8, F8b, F10, F11, F16; see known_findings.json and DESIGN.md section 8.",
         not_applicable=[dict(property_id=p, reason=NOT_YET) for p in ALL if p not in CLAIMED])
     with open(os.path.join(VERIF, "MANIFEST.json"), "w") as fh:
         json.dump(man, fh, indent=1)
